@@ -1672,6 +1672,112 @@ fn gen_c07_two_keys(rng: &mut Rng, out: &mut Vec<Case>) {
     out.push(c);
 }
 
+/// `concurrent_same_key` on a key K that a ROLLED-BACK transaction inserted before (explicit rollback, dropped session,
+/// failing batch, multi-row INSERT failing on a later row — no VACUUM since): its index entry is still there and the
+/// next inserter takes it over.  Two sessions open at once both INSERT K (either order of begin / insert / commit,
+/// sometimes one of them or a third reader began before the rollback), all nine ways of declaring the key, single- and
+/// multi-column.  The specification refuses the second committer.  A final probe of K only where the committed row is
+/// the one that holds the index entry (the other order is finding indexOneEntryPerKey).  Clean region.
+fn gen_c07_leftover_concurrent(rng: &mut Rng, out: &mut Vec<Case>) {
+    let sc = c07_schema(rng);
+    let n_init = rng.range(1, 3);
+    let mut setup = sc.setup_tab.clone();
+    let con_first = rng.chance(1, 2);
+    if let (Some(c), true) = (&sc.con, con_first) {
+        setup.push_str(&format!(" {}", c));
+    }
+    for n in 1..=n_init {
+        setup.push_str(&format!(" row=u:{}", c07_row(&sc, n).replace(' ', ",")));
+    }
+    if let (Some(c), false) = (&sc.con, con_first) {
+        setup.push_str(&format!(" {}", c));
+    }
+    let k = n_init + 1 + rng.range(0, 2);
+    let key = c07_key(&sc, k);
+    let mut ops: Vec<String> = Vec::new();
+    let mut extra: Vec<&str> = vec!["c07", sc.tag, "leftover_concurrent_same_key", "concurrent_same_key"];
+    // a session that began before the leftover's transaction ended does not have it in its aborted set
+    let early_reader = rng.chance(1, 4);
+    let early_writer = rng.chance(1, 5);
+    if early_reader {
+        ops.push("s3 begin ; s3 sel u".into());
+    }
+    if early_writer {
+        ops.push("s2 begin".into());
+    }
+    // (1) the leftover
+    match rng.below(5) {
+        0 | 1 => {
+            ops.push(format!("s4 begin ; s4 ins u {} 500 ; s4 sel u ; s4 rollback", key));
+            extra.push("leftover_rollback");
+        }
+        2 => {
+            ops.push(format!("s4 begin ; s4 ins u {} 500 ; s4 drop", key));
+            extra.push("leftover_session_drop");
+        }
+        3 => {
+            ops.push(format!("db batch ins u {} 500 & ins u {} 501", key, c07_key(&sc, 1)));
+            extra.push("leftover_failed_batch");
+        }
+        _ => {
+            ops.push(format!("db ins u {} 500 , {} 501", key, c07_key(&sc, 1)));
+            extra.push("leftover_failed_stmt");
+        }
+    }
+    if rng.chance(1, 3) {
+        ops.push("db sel u".into());
+    }
+    // (2) two open transactions insert K
+    if rng.chance(1, 2) {
+        ops.push("s1 begin".into());
+        if !early_writer {
+            ops.push("s2 begin".into());
+        }
+    } else {
+        if !early_writer {
+            ops.push("s2 begin".into());
+        }
+        ops.push("s1 begin".into());
+    }
+    if !early_reader && rng.chance(1, 4) {
+        ops.push("s3 begin".into());
+    }
+    let has_reader = early_reader || ops.iter().any(|o| o == "s3 begin");
+    let (first, second) = if rng.chance(1, 2) { ("s1", "s2") } else { ("s2", "s1") };
+    ops.push(format!("{} ins u {} 601", first, key));
+    if has_reader && rng.chance(1, 2) {
+        ops.push("s3 sel u".into());
+    }
+    ops.push(format!("{} ins u {} 602", second, key));
+    if rng.chance(1, 3) {
+        ops.push(format!("{} sel u ; {} sel u", first, second));
+    }
+    // (3) both end
+    let first_commits_first = rng.chance(1, 2);
+    let (e1, e2) = (gen_end(rng), gen_end(rng));
+    let (a, ea, b, eb) = if first_commits_first { (first, e1, second, e2) } else { (second, e2, first, e1) };
+    ops.push(format!("{} {} ; db sel u", a, ea));
+    if has_reader {
+        ops.push("s3 sel u".into());
+    }
+    ops.push(format!("{} {} ; db sel u", b, eb));
+    if has_reader {
+        ops.push("s3 sel u ; s3 commit".into());
+    }
+    // (4) the key is taken exactly when one of them committed; probed only where the index entry is the committed row's
+    let holder_is_first = !(early_writer && first == "s2"); // an early writer does not take the leftover entry over
+    if holder_is_first && first_commits_first && e1 == "commit" {
+        ops.push(format!("db ins u {} 700 ; db sel u", key));
+        extra.push("dup_key_insert");
+    }
+    let line = format!("hist {} | {}", setup, ops.join(" ; "));
+    let mut c = finish(line, Family::Clean, &extra);
+    c.tags.retain(|t| t != "clean" && !t.starts_with("kf:") && t != "kf2" && t != "nt");
+    c.tags.push("clean".to_string());
+    c.tags.push("nt".to_string());
+    out.push(c);
+}
+
 impl Engine for HistEngine {
     fn gen_cases(&self, rng: &mut Rng, tier: Tier) -> Vec<Case> {
         let mut out = Vec::new();
@@ -1682,6 +1788,9 @@ impl Engine for HistEngine {
             }
             for _ in 0..(if quick { 60 } else { 600 }) {
                 gen_c07_two_keys(rng, &mut out);
+            }
+            for _ in 0..(if quick { 120 } else { 1200 }) {
+                gen_c07_leftover_concurrent(rng, &mut out);
             }
             return out;
         }
